@@ -311,6 +311,8 @@ impl Gen {
         // ---- invalid siblings
         let mut invalid = vec![];
         if want_invalid {
+            // still spendable after the transactions committed in this block
+            immature.retain(|t| t.input_pts_iter().all(|op| !spent.contains(&op)));
             if !immature.is_empty() && rng.chance(2, 3) {
                 let t = rng.pick(&immature).clone();
                 let mut txs = commit.clone();
@@ -356,9 +358,9 @@ impl Gen {
         let node = self.node.take().unwrap();
         let (b, invalid) = self.build_next(rng, &node, true, false, true);
         self.node = Some(node);
-        // invalid siblings first or afterwards
-        let before = rng.chance(1, 2);
-        if before { self.deliver_invalid(invalid.clone())?; }
+        // invalid siblings first: their parent is the verified tip, so they are verified at once
+        // (delivered after the valid block they would be stored as an unverified side branch)
+        self.deliver_invalid(invalid)?;
         for u in b.uncles().into_iter() { self.used_uncles.insert(u.hash()); }
         let id = self.block_id[&b.hash()];
         self.steps.push(Step::Block { id, valid: true, why: "extension" });
@@ -366,7 +368,6 @@ impl Gen {
         note_history(&self.jops);
         self.node().process(&b).map_err(|e| format!("a block built from the node's own snapshot was rejected: {e}"))?;
         bump(&mut self.stats, "blocks_extended");
-        if !before { self.deliver_invalid(invalid)?; }
         Ok(())
     }
 
